@@ -2,6 +2,7 @@ package ingressx
 
 import (
 	"encoding/binary"
+	"encoding/json"
 	"fmt"
 	"math/rand"
 	"net/netip"
@@ -36,8 +37,163 @@ type ConcCfg struct {
 	NonceH     string
 	FwdTimeout time.Duration
 
+	// Spell is how the match criteria are written: "" / "inline" = one match block per route; otherwise through named
+	// matchers (see Spellings).  Named[i] lists the criteria of route i that are written ONLY through named matchers.
+	Spell string
+	Named [][]string
+
 	File string
 	Env  map[string]string
+}
+
+// Spellings of a route's criteria set other than the inline match block.  Every spelling denotes the same criteria
+// set (named matchers are merged into the route: list criteria are joined, header / query criteria all required).
+//
+//	named      one named matcher with everything, `match @m` (identical criteria sets of two routes share one definition)
+//	two        the criteria items dealt to two named matchers, `match @m1 @m2` or two match directives
+//	split      some items in a named matcher, the rest in an inline block
+//	twoinline  two named matchers and an inline block
+var Spellings = []string{"named", "two", "split", "twoinline"}
+
+// critItem is one item of a route's criteria set.
+type critItem struct {
+	crit string // method | host | hdr | q | ip
+	idx  int
+}
+
+func critItems(m Match) []critItem {
+	var out []critItem
+	for i := range m.Methods {
+		out = append(out, critItem{"method", i})
+	}
+	for i := range m.Hosts {
+		out = append(out, critItem{"host", i})
+	}
+	if m.Hdr.K != "none" {
+		out = append(out, critItem{"hdr", 0})
+	}
+	if m.Q.K != "none" {
+		out = append(out, critItem{"q", 0})
+	}
+	for i := range m.Ips {
+		out = append(out, critItem{"ip", i})
+	}
+	return out
+}
+
+// HasCriteria reports whether some route of the configuration declares a match criterion.
+func HasCriteria(routes []Route) bool {
+	for _, rt := range routes {
+		if len(critItems(rt.M)) > 0 {
+			return true
+		}
+	}
+	return false
+}
+
+// renderItems writes the directives of a set of criteria items (the body of a match block or of a named matcher).
+func (c *ConcCfg) renderItems(m Match, items []critItem, indent string, r *rand.Rand) string {
+	var sb strings.Builder
+	var methods, hosts, ips []string
+	for _, it := range items {
+		switch it.crit {
+		case "method":
+			mm := m.Methods[it.idx]
+			if r.Intn(4) == 0 {
+				mm = strings.ToLower(mm) // config methods are case-insensitive (docs)
+			}
+			methods = append(methods, mm)
+		case "host":
+			hosts = append(hosts, quote(c.hostPatText(m.Hosts[it.idx], r)))
+		case "ip":
+			ips = append(ips, quote(c.prefixText(m.Ips[it.idx], r)))
+		}
+	}
+	list := func(dir string, vals []string) {
+		if len(vals) == 0 {
+			return
+		}
+		if len(vals) > 1 && r.Intn(3) == 0 {
+			for _, v := range vals { // one directive per value
+				fmt.Fprintf(&sb, "%s%s %s\n", indent, dir, v)
+			}
+			return
+		}
+		fmt.Fprintf(&sb, "%s%s %s\n", indent, dir, strings.Join(vals, " "))
+	}
+	list("method", methods)
+	list("host", hosts)
+	for _, it := range items {
+		hn := c.HdrName
+		if r.Intn(3) == 0 {
+			hn = strings.ToLower(hn) // header names are case-insensitive
+		}
+		switch {
+		case it.crit == "hdr" && m.Hdr.K == "exists":
+			fmt.Fprintf(&sb, "%sheader_exists %s\n", indent, quote(hn))
+		case it.crit == "hdr" && m.Hdr.K == "value":
+			fmt.Fprintf(&sb, "%sheader %s %s\n", indent, quote(hn), quote(c.Val[m.Hdr.V]))
+		case it.crit == "q" && m.Q.K == "exists":
+			fmt.Fprintf(&sb, "%squery_exists %s\n", indent, quote(c.QKey))
+		case it.crit == "q" && m.Q.K == "value":
+			fmt.Fprintf(&sb, "%squery %s %s\n", indent, quote(c.QKey), quote(c.Val[m.Q.V]))
+		}
+	}
+	list("remote_ip", ips)
+	return sb.String()
+}
+
+// spellRoute decides how the criteria items of one route are dealt to named matchers (parts 0 and 1) and the inline
+// block (part 2).  Parts may be empty; an empty part is not written.
+func spellRoute(spell string, items []critItem, r *rand.Rand) [3][]critItem {
+	var parts [3][]critItem
+	n := len(items)
+	if n == 0 {
+		return parts
+	}
+	perm := r.Perm(n)
+	switch {
+	case spell == "" || spell == "inline":
+		parts[2] = items
+	case spell == "named" || n == 1:
+		parts[0] = items // a single item always goes through the named matcher
+	case spell == "two":
+		for k, j := range perm {
+			parts[k%2] = append(parts[k%2], items[j])
+		}
+	case spell == "split":
+		cut := 1 + r.Intn(n-1)
+		for k, j := range perm {
+			if k < cut {
+				parts[0] = append(parts[0], items[j])
+			} else {
+				parts[2] = append(parts[2], items[j])
+			}
+		}
+	case spell == "twoinline":
+		for k, j := range perm {
+			parts[k%3] = append(parts[k%3], items[j])
+		}
+	default:
+		parts[2] = items
+	}
+	// keep the declaration order inside every part
+	for p := range parts {
+		sortItems(parts[p], items)
+	}
+	return parts
+}
+
+func sortItems(part, order []critItem) {
+	pos := map[critItem]int{}
+	for i, it := range order {
+		pos[it] = i
+	}
+	for i := 1; i < len(part); i++ {
+		for j := i; j > 0 && pos[part[j]] < pos[part[j-1]]; j-- {
+			part[j], part[j-1] = part[j-1], part[j]
+		}
+	}
 }
 
 var (
@@ -144,7 +300,7 @@ func randInside(r *rand.Rand, p netip.Prefix) netip.Addr {
 }
 
 // Concretise builds a Hookaidofile for an abstract configuration.
-func Concretise(routes []Route, seed int64, tag string, fwdURL, closedURL string) *ConcCfg {
+func Concretise(routes []Route, seed int64, tag string, fwdURL, closedURL string, spell string) *ConcCfg {
 	c := &ConcCfg{Seed: seed, Tag: tag, Routes: routes, Seg: map[string]string{}, Label: map[string]string{},
 		Val: map[string]string{}, Pfx: map[string]netip.Prefix{}, UserName: map[string]string{}, Password: map[string]string{},
 		PwRefText: map[string]string{}, Key: map[string][]byte{}, Env: map[string]string{}}
@@ -253,6 +409,12 @@ func Concretise(routes []Route, seed int64, tag string, fwdURL, closedURL string
 		w("}\n")
 	}
 
+	c.Spell = spell
+	rm := rng(seed, "match", spell) // its own stream: the vocabulary and the rest of the file do not depend on the spelling
+	var defs strings.Builder
+	shared := map[string]string{}
+	defsFirst := rm.Intn(2) == 0
+	headLen := sb.Len()
 	for i, rt := range routes {
 		p := c.RoutePaths[i]
 		// route path as written: sometimes with a trailing slash or a doubled slash (compile cleans it)
@@ -285,52 +447,67 @@ func Concretise(routes []Route, seed int64, tag string, fwdURL, closedURL string
 		}
 		w("%s {\n", head)
 		w("  queue { backend memory }\n")
-		// match block
-		m := rt.M
-		if len(m.Methods) > 0 || len(m.Hosts) > 0 || m.Hdr.K != "none" || m.Q.K != "none" || len(m.Ips) > 0 {
-			w("  match {\n")
-			if len(m.Methods) > 0 {
-				ms := make([]string, len(m.Methods))
-				for j, mm := range m.Methods {
-					ms[j] = mm
-					if r.Intn(4) == 0 {
-						ms[j] = strings.ToLower(mm) // config methods are case-insensitive (docs)
-					}
+		// match criteria in the spelling of this rendering
+		items := critItems(rt.M)
+		parts := spellRoute(spell, items, rm)
+		var refs []string
+		for pi := 0; pi < 2; pi++ {
+			if len(parts[pi]) == 0 {
+				continue
+			}
+			key := ""
+			if spell == "named" {
+				mj, _ := json.Marshal(rt.M)
+				key = string(mj) // routes with the same criteria set share the definition
+			}
+			name, ok := shared[key]
+			if key == "" || !ok {
+				name = fmt.Sprintf("%s%d%s", pick(rm, []string{"m", "crit-r", "M_", "only-"}), i+1, []string{"a", "b"}[pi])
+				fmt.Fprintf(&defs, "@%s {\n%s}\n", name, c.renderItems(rt.M, parts[pi], "  ", rm))
+				if key != "" {
+					shared[key] = name
 				}
-				w("    method %s\n", strings.Join(ms, " "))
 			}
-			if len(m.Hosts) > 0 {
-				hs := make([]string, len(m.Hosts))
-				for j, hp := range m.Hosts {
-					hs[j] = quote(c.hostPatText(hp, r))
-				}
-				w("    host %s\n", strings.Join(hs, " "))
-			}
-			hn := c.HdrName
-			if r.Intn(3) == 0 {
-				hn = strings.ToLower(hn) // header names are case-insensitive
-			}
-			switch m.Hdr.K {
-			case "exists":
-				w("    header_exists %s\n", quote(hn))
-			case "value":
-				w("    header %s %s\n", quote(hn), quote(c.Val[m.Hdr.V]))
-			}
-			switch m.Q.K {
-			case "exists":
-				w("    query_exists %s\n", quote(c.QKey))
-			case "value":
-				w("    query %s %s\n", quote(c.QKey), quote(c.Val[m.Q.V]))
-			}
-			if len(m.Ips) > 0 {
-				ps := make([]string, len(m.Ips))
-				for j, pn := range m.Ips {
-					ps[j] = quote(c.prefixText(pn, r))
-				}
-				w("    remote_ip %s\n", strings.Join(ps, " "))
-			}
-			w("  }\n")
+			refs = append(refs, "@"+name)
 		}
+		inlineFirst := rm.Intn(2) == 0
+		writeInline := func() {
+			if len(parts[2]) > 0 {
+				w("  match {\n%s  }\n", c.renderItems(rt.M, parts[2], "    ", rm))
+			}
+		}
+		if inlineFirst {
+			writeInline()
+		}
+		if len(refs) == 2 && rm.Intn(2) == 0 {
+			w("  match %s\n  match %s\n", refs[0], refs[1])
+		} else if len(refs) > 0 {
+			w("  match %s\n", strings.Join(refs, " "))
+		}
+		if !inlineFirst {
+			writeInline()
+		}
+		var namedOnly []string
+		for _, crit := range []string{"method", "host", "hdr", "q", "ip"} {
+			has, inline := false, false
+			for _, it := range items {
+				if it.crit == crit {
+					has = true
+				}
+			}
+			for _, it := range parts[2] {
+				if it.crit == crit {
+					inline = true
+				}
+			}
+			if has && !inline {
+				namedOnly = append(namedOnly, crit)
+			}
+		}
+		if namedOnly == nil {
+			namedOnly = []string{}
+		}
+		c.Named = append(c.Named, namedOnly)
 		// auth
 		switch rt.Auth.K {
 		case "basic":
@@ -400,6 +577,14 @@ func Concretise(routes []Route, seed int64, tag string, fwdURL, closedURL string
 		}
 	}
 	c.File = sb.String()
+	if defs.Len() > 0 {
+		// named matcher definitions are top-level blocks; before or after the routes that use them
+		if defsFirst {
+			c.File = c.File[:headLen] + defs.String() + c.File[headLen:]
+		} else {
+			c.File += defs.String()
+		}
+	}
 	return c
 }
 
